@@ -63,7 +63,14 @@ class C19:
         rep, ctx = self.rep, self.ctx
         rep.rule("C19.H1", "the id map is mutated only in __init__, __insert_node, _delete, _set_oid; child maps only in Node.__init__, "
                  "Node.add_child and _delete; parent links only in Node.__init__, the parent setter, __insert_node and _delete", expect_min=10)
-        owners = {"map": MAP_OWNERS, "children": CHILD_OWNERS, "parent": PARENT_OWNERS}
+        owners = {"map": set(MAP_OWNERS), "children": set(CHILD_OWNERS), "parent": set(PARENT_OWNERS)}
+        # a private helper that only an owner calls (extract-method) is part of that owner
+        from sa.util import with_private_helpers
+        for kind in owners:
+            for f0 in list(ctx.prog.functions.values()):
+                if f0.module is self.H.module and self._name(f0) in owners[kind]:
+                    for h in with_private_helpers(ctx, f0)[1:]:
+                        owners[kind].add(self._name(h))
         n = 0
         for f in ctx.prog.functions.values():
             # any module: nobody else may reach into the cache's private structures either
@@ -95,10 +102,11 @@ class C19:
         f = self.H.methods["_delete"]
         rn = f.params()[1]
         g = ctx.cfg(f)
-        guard = [n for n in g.nodes if n.kind == "test" and pat.match("not %s or %s.is_root" % (rn, rn), n.ast) is not None]
+        from sa.util import test_is
+        guard = [(n, test_is(n, "not %s or %s.is_root" % (rn, rn))) for n in g.nodes if test_is(n, "not %s or %s.is_root" % (rn, rn))]
         if not guard:
             raise AnalysisError("_delete: guard `not node or node.is_root` not found")
-        starts = [b for (b, l) in g.succ[guard[0].id] if l == "F"]
+        starts = [b for (b, l) in g.succ[guard[0][0].id] if l == ("F" if guard[0][1] > 0 else "T")]
         loop = [n for n in g.nodes if n.kind == "iter" and node_has_call(n, "self._walk(%s)" % rn)]
         pops = [n for n in ctx.own_nodes(f) if isinstance(n, ast.Call) and pat.match("self._oid_to_node.pop($N.oid, None)", n) is not None]
         in_loop = [p for p in pops if loop and any(x is p for x in ast.walk(loop[0].ast))]
@@ -144,11 +152,20 @@ class C19:
         pth = g.reach([g.entry.id], add, avoid=lambda n: n in ev, follow=lambda a, b, l: l != "exc" and not (a in tests and l == "F"))
         rep.check("C19.H3", "__insert_node|evict-id", f, good and pth is None, "delete(oid=node.oid) under `node.oid`, before add_child",
                   "the previous owner of the node's id is not evicted before the node is linked: two nodes own one id", witness=describe_path(pth) if pth else None)
-        loops = [lp for lp in ctx.own_nodes(f) if isinstance(lp, ast.For) and isinstance(lp.iter, ast.Call) and pat.match("self._walk(%s)" % node, lp.iter) is not None]
+        from sa.util import with_private_helpers
+        loops, lf = [], f
+        for ff in with_private_helpers(ctx, f):
+            nd = node if ff is f else None
+            for lp in ctx.own_nodes(ff):
+                if isinstance(lp, ast.For) and isinstance(lp.iter, ast.Call) and pat.match("self._walk(%s)" % (nd or "$N"), lp.iter) is not None and not loops:
+                    loops, lf = [lp], ff
         good = False
         detail = "no loop over self._walk(node)"
         if loops:
             lp = loops[0]
+            f_outer, f = f, lf
+            if lf is not f_outer:
+                node = ast.unparse(lp.iter.args[0])
             cur = lp.target.elts[0].id if isinstance(lp.target, ast.Tuple) and isinstance(lp.target.elts[0], ast.Name) else (lp.target.id if isinstance(lp.target, ast.Name) else "?")
             regs = [x for x in ast.walk(lp) if isinstance(x, ast.Assign) and pat.match("self._oid_to_node[%s.oid]" % cur, x.targets[0]) is not None and isinstance(x.value, ast.Name) and x.value.id == cur]
             evs = [x for x in ast.walk(lp) if isinstance(x, ast.Call) and pat.match("self.delete(oid=%s.oid)" % cur, x) is not None]
@@ -159,7 +176,11 @@ class C19:
                 ef = ctx.facts_at(f, evs[0])
                 good = good and any((not pol and "==" in txt) or (pol and "!=" in txt) or (not pol and " is " in txt) for (txt, pol) in ef)
                 detail = "register facts %s, evict facts %s" % (sorted(rf), sorted(ef))
-            ok2, why2, _ = self._precedes(f, add, lambda n: n.kind == "iter" and n.ast is lp)
+            if f is f_outer:
+                ok2, why2, _ = self._precedes(f, add, lambda n: n.kind == "iter" and n.ast is lp)
+            else:       # the loop lives in an extracted helper: linking precedes the helper call
+                ok2, why2, _ = self._precedes(f_outer, add, lambda n, h=f.name: node_has_call(n, "self.%s($$$)" % h))
+            f = f_outer
             good = good and ok2
         rep.check("C19.H3", "__insert_node|register-subtree", f, good, "every id of the inserted subtree registered after linking, different owner evicted first",
                   "the ids of an inserted / moved subtree are not all (re)registered with eviction of a different previous owner (%s)" % detail)
@@ -256,6 +277,31 @@ def h8(ctx, rep):
                           "`%s`: the tree key built here is normalised differently from the key used by look-ups - the node can be inserted but never found / evicted" % ast.unparse(n))
 
 
+def h9(ctx, rep):
+    rep.rule("C19.H9", "the raw tree walk `_unsafe_path_to_node` (it trusts its argument to be normalised) is entered only from `_get_node`, after normalize_path, "
+             "and from its own recursion: every other look-up by path goes through the normalising entry point", expect_min=2)
+    H = ctx.prog.cls("HierarchicalCache")
+    n = 0
+    for f in H.methods.values():
+        for c in ctx.own_nodes(f):
+            if isinstance(c, ast.Call) and isinstance(c.func, ast.Attribute) and c.func.attr == "_unsafe_path_to_node":
+                n += 1
+                if f.name == "_unsafe_path_to_node":
+                    rep.ok("C19.H9", "_unsafe_path_to_node|recursion", ctx.line(f, c), "recursion on the parent path")
+                    continue
+                normed = set()
+                for a in ctx.own_nodes(f):
+                    if isinstance(a, ast.Assign) and isinstance(a.targets[0], ast.Name) and isinstance(a.value, ast.Call) and isinstance(a.value.func, ast.Attribute) and a.value.func.attr == "normalize_path":
+                        normed.add(a.targets[0].id)
+                arg = c.args[0] if c.args else None
+                good = f.name == "_get_node" and isinstance(arg, ast.Name) and arg.id in normed
+                rep.check("C19.H9", "%s|raw-walk" % short(f.qname), ctx.line(f, c), good, "called with a value normalised in the same function",
+                          "`%s` in %s walks the tree with a path that was not normalised here: on a case-insensitive provider a differently-cased spelling misses the node, "
+                          "the insert re-creates the parent and evicts the real folder with everything cached under it" % (ast.unparse(c), f.name))
+    if n < 2:
+        raise AnalysisError("_unsafe_path_to_node call sites not found")
+
+
 def run(ctx: Ctx, rep: Report, tier: str):
     c = C19(ctx, rep)
     c.h1()
@@ -264,3 +310,4 @@ def run(ctx: Ctx, rep: Report, tier: str):
     c.h4_h6()
     c.h7()
     h8(ctx, rep)
+    h9(ctx, rep)
